@@ -16,6 +16,21 @@ CHECKS = {
          "band oracle on the implementation as failing-input search.",
     technique="Lean 4 theorems (one-step invariant + induction over update histories) about a per-particle model; differential correspondence",
     design="3/C05"),
+ "C07": dict(
+    text="Proof: exact age-advance identities, alive'=>alive and the exact death rule (iff) for every module's per-particle model, "
+         "'once dead, dead for ever' by induction over histories, and step-size independence of salmon-lice survival "
+         "(product of exp factors = exp of the sum, from exp(a+b)=exp a*exp b; inhabited by the reals). "
+         "Tie: bit-exact correspondence on age/alive/days, implementation-side oracle incl. partition experiments.",
+    technique="Lean 4 theorems (algebraic identities, decision-logic iff, induction over step lists); differential correspondence",
+    design="3/C07"),
+ "C10": dict(
+    text="Proof (model level): an update that is a per-particle map commutes with permutation and sub-selection; the collision "
+         "memory is a lookup by pid, invariant under adding/removing/re-ordering other particles. The substance - that the vectorised "
+         "numpy code refines that map - is checked on every run by metamorphic relations on the implementation (permutation, "
+         "sub-selection, empty set with warnings as errors) and community-vs-alone histories.",
+    technique="Lean 4 theorems on List.map / lookup-by-identity; metamorphic + differential correspondence on the implementation",
+    design="3/C10",
+    note="Partial in the sense of DESIGN 3/C10: the refinement 'numpy code = map of the per-particle rule' is established by testing, not by proof."),
 }
 
 def main():
